@@ -361,7 +361,11 @@ impl Prop for C06 {
             "backtick-only-composition" => {
                 let Some(st) = v.case.get("state_after_terminator") else { return false };
                 let buf = st.get("buffer").and_then(|b| b.as_str()).unwrap_or("");
-                v.clause == "terminator-ends-session" && v.sig == "c06:flag-after-backspace_to_empty:phonetic:sugg=false" && !buf.is_empty() && buf.chars().all(|c| c == '`')
+                // what is left (only back-ticks, or e.g. "o`" whose inherent vowel the back-tick suppresses) transliterates to nothing
+                let (l, w, t) = crate::oracle::phon::split(buf, false);
+                let ph = okkhor::parser::Parser::new_phonetic();
+                let empty_output = buf.is_ascii() && format!("{}{}{}", ph.convert(&l), ph.convert(&w), ph.convert(&t)).is_empty();
+                v.clause == "terminator-ends-session" && v.sig == "c06:flag-after-backspace_to_empty:phonetic:sugg=false" && !buf.is_empty() && buf.contains('`') && empty_output
             }
             _ => false,
         }
